@@ -20,6 +20,7 @@
 package main
 
 import (
+	"bufio"
 	"bytes"
 	"encoding/json"
 	"fmt"
@@ -155,7 +156,33 @@ type answer struct {
 	Err    string
 }
 
+// rawRequest writes the request line itself (Go's http.Client rewrites a CONNECT request into the
+// authority form and drops path and query).
+func rawRequest(method, u string) answer {
+	pu, err := url.Parse(u)
+	if err != nil {
+		return answer{Err: err.Error()}
+	}
+	conn, err := net.DialTimeout("tcp", pu.Host, 5*time.Second)
+	if err != nil {
+		return answer{Err: err.Error()}
+	}
+	defer conn.Close()
+	conn.SetDeadline(time.Now().Add(10 * time.Second))
+	fmt.Fprintf(conn, "%s %s HTTP/1.1\r\nHost: %s\r\nConnection: close\r\n\r\n", method, pu.RequestURI(), pu.Host)
+	resp, err := http.ReadResponse(bufio.NewReader(conn), &http.Request{Method: method})
+	if err != nil {
+		return answer{Err: err.Error()}
+	}
+	defer resp.Body.Close()
+	b, _ := io.ReadAll(io.LimitReader(resp.Body, 1<<20))
+	return answer{Status: resp.StatusCode, Body: b}
+}
+
 func request(cl *http.Client, method, u, body string) answer {
+	if method == "CONNECT" {
+		return rawRequest(method, u)
+	}
 	var rd io.Reader
 	if body != "" {
 		rd = strings.NewReader(body)
@@ -312,7 +339,7 @@ const (
 )
 
 var (
-	methods    = []string{"GET", "POST", "PUT", "DELETE", "OPTIONS"}
+	methods    = []string{"GET", "POST", "PUT", "DELETE", "OPTIONS", "PATCH", "CONNECT", "FOO"}
 	eioVals    = []string{"", "3", "4", "5", "x"} // "" = parameter absent
 	transports = []string{"", "polling", "websocket", "x"}
 	sidKinds   = []string{sidAbsent, sidUnknown, sidLive, sidClosed}
